@@ -34,41 +34,82 @@ func genQuad(g *vlib.G) {
 	for _, rl := range rules {
 		for n := 1; n <= vlib.Pick(g, 3, 4); n++ {
 			for conc := 0; conc <= n+1; conc++ {
-				rl, n, conc := rl, n, conc
-				g.Case(fmt.Sprintf("rule=%s n=%d concurrent=%d", rl.name, n, conc), func(t *vlib.T) {
-					f := func(x float64) float64 { return x*x + 1 }
-					want := quad.Fixed(f, 0, 1, n, rl.r, 0) // serial path, no goroutines
-					var got float64
-					var calls map[float64]int
-					body := func() {
-						calls = map[float64]int{}
-						got = quad.Fixed(func(x float64) float64 {
-							point("f")
-							vlib.Atomically(func() { calls[x]++ })
-							return x*x + 1
-						}, 0, 1, n, rl.r, conc)
+				// mask selects the nodes (in the serial call order) at which the integrand is NaN: a worker
+				// whose partial sum is NaN still has to drain its tasks, or the distributor blocks forever.
+				masks := []int{0, 1, 1 << (n - 1), 1<<n - 1}
+				if g.Thorough() {
+					masks = masks[:0]
+					for m := 0; m < 1<<n; m++ {
+						masks = append(masks, m)
 					}
-					explore(t, g, n <= 2, body, func(x *vsched.Exec) string {
-						if rl.name == "legendre" {
-							if math.Abs(got-want) > float64(n)*1e-15*math.Abs(want) {
-								return fmt.Sprintf("result %v differs from serial %v beyond rounding", got, want)
+				}
+				seenMask := map[int]bool{}
+				for _, mask := range masks {
+					if seenMask[mask] {
+						continue
+					}
+					seenMask[mask] = true
+					rl, n, conc, mask := rl, n, conc, mask
+					name := fmt.Sprintf("rule=%s n=%d concurrent=%d", rl.name, n, conc)
+					if mask != 0 {
+						name += fmt.Sprintf(" nanmask=%b", mask)
+					}
+					g.Case(name, func(t *vlib.T) {
+						var order []float64
+						quad.Fixed(func(x float64) float64 { order = append(order, x); return 0 }, 0, 1, n, rl.r, 0)
+						bad := map[float64]bool{}
+						for k, x := range order {
+							if mask>>k&1 == 1 {
+								bad[x] = true
 							}
-						} else if got != want {
-							return fmt.Sprintf("result %v != serial %v", got, want)
 						}
-						tot := 0
-						for _, c := range calls {
-							tot += c
-							if c != 1 {
-								return fmt.Sprintf("f called %d times at one node", c)
+						f := func(x float64) float64 {
+							if bad[x] {
+								return math.NaN()
 							}
+							return x*x + 1
 						}
-						if tot != n {
-							return fmt.Sprintf("f called %d times, want %d", tot, n)
+						want := quad.Fixed(f, 0, 1, n, rl.r, 0) // serial path, no goroutines
+						if math.IsNaN(want) != (mask != 0) {
+							t.Failf("serial result %v with nanmask=%b", want, mask)
+							return
 						}
-						return ""
+						var got float64
+						var calls map[float64]int
+						body := func() {
+							calls = map[float64]int{}
+							got = quad.Fixed(func(x float64) float64 {
+								point("f")
+								vlib.Atomically(func() { calls[x]++ })
+								return f(x)
+							}, 0, 1, n, rl.r, conc)
+						}
+						explore(t, g, n <= 2, body, func(x *vsched.Exec) string {
+							if mask != 0 {
+								if !math.IsNaN(got) {
+									return fmt.Sprintf("result %v, serial NaN", got)
+								}
+							} else if rl.name == "legendre" {
+								if math.Abs(got-want) > float64(n)*1e-15*math.Abs(want) {
+									return fmt.Sprintf("result %v differs from serial %v beyond rounding", got, want)
+								}
+							} else if got != want {
+								return fmt.Sprintf("result %v != serial %v", got, want)
+							}
+							tot := 0
+							for _, c := range calls {
+								tot += c
+								if c != 1 {
+									return fmt.Sprintf("f called %d times at one node", c)
+								}
+							}
+							if tot != n {
+								return fmt.Sprintf("f called %d times, want %d", tot, n)
+							}
+							return ""
+						})
 					})
-				})
+				}
 			}
 		}
 	}
